@@ -34,6 +34,8 @@ def scenarios(pid, thorough):
             for procs in ((1, 2, 3) if thorough else (1, 2)):
                 for sit in ('idle', 'mid_task', 'queued', 'swallow'):
                     out.append(dict(kind='terminate', threads=threads, procs=procs, situation=sit))
+        # exit callbacks that take a while (F17: the signal of terminate() arrives inside them)
+        out.append(dict(kind='terminate', threads=True, procs=2, situation='idle', slowexit=True))
         out.append(dict(kind='gc'))
     return out
 
